@@ -27,6 +27,11 @@ def bind {α β : Type} (o : Outcome α) (f : α → Outcome β) : Outcome β :=
   | ub w => ub w
   | outOfFuel => outOfFuel
 
+def map {α β : Type} (f : α → β) : Outcome α → Outcome β
+  | ok a => ok (f a)
+  | ub w => ub w
+  | outOfFuel => outOfFuel
+
 def isOk {α : Type} : Outcome α → Bool
   | ok _ => true
   | _ => false
@@ -277,6 +282,28 @@ def Tokenizer.drain (T : Tokenizer) (s : T.σ) : List Key × Res × T.σ :=
   | some r => r
   | none => ([], Res.error, s)   -- unreachable: `drainFuel_pending`
 
+/-- `termkey_push_bytes` took every byte it was given. -/
+def Tokenizer.Accepts (T : Tokenizer) (s : T.σ) (bytes : List UInt8) : Prop :=
+  (T.push s bytes).2 = bytes.length
+
+instance (T : Tokenizer) (s : T.σ) (bytes : List UInt8) : Decidable (T.Accepts s bytes) :=
+  inferInstanceAs (Decidable ((T.push s bytes).2 = bytes.length))
+
+/-- Push, then drain: keys, final result, state. -/
+def Tokenizer.feed (T : Tokenizer) (s : T.σ) (bytes : List UInt8) : List Key × Res × T.σ :=
+  T.drain (T.push s bytes).1
+
+/-- The law C20 trusts the tokenizer to obey: whenever a push is accepted in full, pushing `a ++ b` and
+    draining yields the same keys, the same final result and the same state as pushing `a`, draining,
+    pushing `b`, draining (no forced timeout in between) — and both of those pushes are accepted too.
+    Pushing does not change the wait time. -/
+structure Tokenizer.Incremental (T : Tokenizer) : Prop where
+  split : ∀ (s : T.σ) (a b : List UInt8), T.Accepts s (a ++ b) →
+    T.Accepts s a ∧ T.Accepts (T.feed s a).2.2 b ∧
+    T.feed s (a ++ b) =
+      ((T.feed s a).1 ++ (T.feed (T.feed s a).2.2 b).1, (T.feed (T.feed s a).2.2 b).2.1,
+       (T.feed (T.feed s a).2.2 b).2.2)
+
 /-- `get_keys`, literally: fetch a key, hand it to `got_key`, repeat; then arm or clear the deadline.
     `dfuel` bounds the drain loop, `fuel` the X10 loop. -/
 def getKeysLoop (T : Tokenizer) (cfg : Cfg) (fuel : Nat) :
@@ -378,6 +405,11 @@ def pushPieces (T : Tokenizer) (cfg : Cfg) (fuel : Nat) (now : TimeVal) :
       | .outOfFuel => .outOfFuel
     | .ub w => .ub w
     | .outOfFuel => .outOfFuel
+
+/-- What of a push can be observed from outside and does not depend on the clock: the tokenizer state,
+    the held mask, whether the inter-byte timeout is armed, and the events emitted. -/
+def pushObs {T : Tokenizer} (r : Term T × List Event) : T.σ × Nat × Bool × List Event :=
+  (r.1.tk, r.1.held, decide (r.1.timeoutAt.sec ≠ -1), r.2)
 
 /-! ### the specification C20 states (no bit mask, no loop) -/
 
